@@ -36,6 +36,16 @@ const SEND_HANG: u32 = 101;
 /// send or not.
 const SEND_HANG_AND_RECV_ERROR: u32 = 102;
 
+/// Runs that carry the run parameter `bigmsg` (every eighth run of the seeded search) replace the poison message by a
+/// long one: valid JSON that is not JSON-RPC, 6-12 KB of multi-byte characters behind 0-3 bytes of padding, so that
+/// whatever byte offset the client might cut, slice or index its echo of the message at, some run has that offset
+/// inside a character (seeded change C09-r7-m1).
+pub fn big_poison(k: u32) -> InItem {
+	let pad = (k % 4) as usize;
+	let ch = ["\u{1D11E}", "\u{e9}", "\u{20ac}"][(k / 4 % 3) as usize];
+	InItem::Text(format!(r#"{{"foo":"{}{}"}}"#, "a".repeat(pad), ch.repeat(3000)))
+}
+
 pub fn poison(k: u32, id_str: bool) -> InItem {
 	let t = |s: &str| InItem::Text(s.to_string());
 	let id0 = if id_str { "\"0\"" } else { "0" };
@@ -87,6 +97,7 @@ fn describe_fault(kind: u32) -> String {
 pub async fn scenario() {
 	// ---------------- plan ----------------
 	let sweep_base = rt::param("sweep_base").is_some();
+	let big = rt::param("bigmsg").is_some();
 	let n_front = rt::draw_range("n_front", 1, 4);
 	let max_conc = *rt::pick("max_conc", &[256usize, 1, 2]);
 	let id_str = rt::chance("id_kind", 1, 3);
@@ -142,7 +153,7 @@ pub async fn scenario() {
 		// (in flood mode every notification is a seam event: the fault comes later, when the flood is in full swing)
 		(Some(kind), rt::draw_range("fault_pos", 1, 30) as u64 + if flood { 15 } else { 0 }, rt::chance("front", 1, 2))
 	};
-	rt::event("plan", format!("fronts={plans:?} late={n_late} silent={silent} flood={flood} ping={ping_cfg:?} max_conc={max_conc} id_str={id_str} presub={presub} close_mode={close_mode} fault={:?}@{pos}", kind.map(describe_fault)));
+	rt::event("plan", format!("fronts={plans:?} late={n_late} silent={silent} flood={flood} ping={ping_cfg:?} max_conc={max_conc} id_str={id_str} presub={presub} close_mode={close_mode} fault={:?}@{pos}{}", kind.map(describe_fault), if big { " big" } else { "" }));
 
 	let (wire, tx, rx) = Wire::new();
 	{
@@ -159,6 +170,10 @@ pub async fn scenario() {
 				SILENCE => Fault::Silence,
 				SEND_HANG => Fault::SendHang,
 				SEND_HANG_AND_RECV_ERROR => Fault::SendHangThenRecv(InItem::Err("injected receive error".into())),
+				k if big => {
+					rt::probe("big_multibyte_poison");
+					Fault::Recv { item: big_poison(k - 3), front }
+				}
 				k => Fault::Recv { item: poison(k - 3, id_str), front },
 			});
 		}
@@ -362,6 +377,7 @@ fn check(
 	req_timeout: Duration,
 ) {
 	let w = wire.lock();
+	let big = rt::param("bigmsg").is_some();
 	let fault_name = kind.map(describe_fault).unwrap_or_else(|| "none".into());
 	let transport_fault = matches!(kind, Some(0..=2) | Some(SEND_HANG_AND_RECV_ERROR));
 	let silence = kind == Some(SILENCE);
@@ -377,6 +393,7 @@ fn check(
 			w.delivered.iter().find(|(_, _, it)| match (it, kind) {
 				(InItem::Err(e), Some(1 | SEND_HANG_AND_RECV_ERROR)) => e.contains("injected receive error"),
 				(InItem::Err(e), Some(2)) => e.contains("closed by peer"),
+				(it, Some(k)) if k >= 3 && big => format!("{it:?}") == format!("{:?}", big_poison(k - 3)),
 				(it, Some(k)) if k >= 3 => format!("{it:?}") == format!("{:?}", poison(k - 3, false)) || format!("{it:?}") == format!("{:?}", poison(k - 3, true)),
 				_ => false,
 			}).map(|d| d.1)
